@@ -45,3 +45,69 @@ Print Assumptions term_cmp_eq.
 Print Assumptions term_cmp_total.
 Print Assumptions kind_order.
 Print Assumptions ns_term_eq_is_default.
+
+(* ---- accessors, components, constructors (widened harness) ---- *)
+(* a copy / conversion / accessor result spelled the same is the same term, hence an equal one *)
+Check (term_same_spec : forall a b, term_same a b = true <-> a = b).
+Check (term_same_eqb : forall a b, term_same a b = true -> term_eqb a b = true).
+Check (built_ok_eq : forall t obs, built_ok t obs = true -> forallb (term_eqb t) obs = true).
+(* equality of atoms depends only on what the accessors return *)
+Check (eq_via_accessors : forall a b, t_is_atom a = true -> term_eqb a b = eq_acc a b).
+Check (atom_view_inj : forall a b,
+  t_is_atom a = true -> t_is_atom b = true -> kind_of a = kind_of b ->
+  acc_iri a = acc_iri b -> acc_bnode a = acc_bnode b -> acc_var a = acc_var b ->
+  acc_lex a = acc_lex b -> acc_dt a = acc_dt b -> acc_tag a = acc_tag b -> a = b).
+Check (tview_ok_self : forall t,
+  tview_ok t (kind_rank (kind_of t)) (t_is_atom t) (acc_iri t) (acc_bnode t) (acc_lex t) (acc_dt t)
+           (acc_tag t) (acc_var t) = true).
+(* quoted-triple components: atoms / constituents / to_triple of equal terms are pairwise equal *)
+Check (atoms_filter : forall t, t_atoms t = filter t_is_atom (t_constituents t)).
+Check (atoms_atomic : forall t, forallb t_is_atom (t_atoms t) = true).
+Check (constituents_count : forall t,
+  if t_is_atom t then t_constituents t = [t] /\ t_atoms t = [t]
+  else (4 <= length (t_constituents t))%nat /\ (3 <= length (t_atoms t))%nat).
+Check (eq_atoms : forall a b, term_eqb a b = true -> list_eqb term_eqb (t_atoms a) (t_atoms b) = true).
+Check (eq_constituents : forall a b,
+  term_eqb a b = true -> list_eqb term_eqb (t_constituents a) (t_constituents b) = true).
+Check (eq_to_triple : forall a b, term_eqb a b = true ->
+  match t_to_triple a, t_to_triple b with
+  | Some (s, p, o), Some (s', p', o') => term_eqb s s' && term_eqb p p' && term_eqb o o' = true
+  | None, None => True
+  | _, _ => False
+  end).
+(* `lex * ns_term` *)
+Check (ns_lit_eq : forall ns sfx lex lex' other,
+  term_eqb (ns_lit ns sfx lex) (LitDt lex' other) = str_eqb lex lex' && ns_iri_eqb ns sfx other).
+(* graph names *)
+Check (gname_eqb_refl : forall a, gname_eqb a a = true).
+Check (gname_eqb_sym : forall a b, gname_eqb a b = gname_eqb b a).
+Check (gname_eqb_trans : forall a b c, gname_eqb a b = true -> gname_eqb b c = true -> gname_eqb a c = true).
+Check (gname_default : forall a, gname_eqb None a = true <-> a = None).
+
+(* non-vacuity: a nested quoted triple, its atoms in order, and a copy that differs only in tag case *)
+Example components_example :
+  let t := Triple (Triple (Bnode [98]) (Iri [112]) (LitLang [108] [69;78])) (Iri [113]) (Var [118]) in
+  t_atoms t = [Bnode [98]; Iri [112]; LitLang [108] [69;78]; Iri [113]; Var [118]]
+  /\ length (t_constituents t) = 7%nat
+  /\ term_same t (Triple (Triple (Bnode [98]) (Iri [112]) (LitLang [108] [101;110])) (Iri [113]) (Var [118])) = false
+  /\ term_eqb t (Triple (Triple (Bnode [98]) (Iri [112]) (LitLang [108] [101;110])) (Iri [113]) (Var [118])) = true
+  /\ gname_eqb None (Some t) = false.
+Proof. repeat split; vm_compute; reflexivity. Qed.
+
+Print Assumptions term_same_spec.
+Print Assumptions term_same_eqb.
+Print Assumptions built_ok_eq.
+Print Assumptions eq_via_accessors.
+Print Assumptions atom_view_inj.
+Print Assumptions tview_ok_self.
+Print Assumptions atoms_filter.
+Print Assumptions atoms_atomic.
+Print Assumptions constituents_count.
+Print Assumptions eq_atoms.
+Print Assumptions eq_constituents.
+Print Assumptions eq_to_triple.
+Print Assumptions ns_lit_eq.
+Print Assumptions gname_eqb_refl.
+Print Assumptions gname_eqb_sym.
+Print Assumptions gname_eqb_trans.
+Print Assumptions gname_default.
